@@ -21,6 +21,7 @@ structure OSt where
   verdicts : List (Key2 × VerdictRec) := []
   raised : List Key2 := []                         -- experiments whose budget was raised since their verdict
   jobCreates : List (Key2 × Nat) := []
+  jobGoneExt : List Key2 := []                     -- run objects that disappeared without a controller delete (TTL, user clean-up)
   maxReq : List (Key2 × Int) := []
   quiesce : Option Key2 := none
   quiesceWrites : Nat := 0
@@ -71,6 +72,8 @@ def OSt.advance (o : OSt) (op : OpKind) (log : List String) (cur : World) : OSt 
   let jobCreates := (okWrites log "job.create.").foldl (fun acc s =>
     let k := parseK2 s
     upsert acc k ((lookup acc k).getD 0 + 1)) o.jobCreates
+  let deletedNow := (okWrites log "job.delete.").map parseK2
+  let jobGoneExt := o.jobGoneExt ++ ((o.prev.jobs.map (·.key)).filter (fun k => (findJob cur k).isNone && !deletedNow.contains k && !o.jobGoneExt.contains k))
   let maxReq := cur.sugs.foldl (fun acc s =>
     let m := (lookup acc s.key).getD 0
     upsert acc s.key (if s.requests > m then s.requests else m)) o.maxReq
@@ -79,7 +82,7 @@ def OSt.advance (o : OSt) (op : OpKind) (log : List String) (cur : World) : OSt 
     | .quiesceBegin k => (some k, 0)
     | .quiesceEnd _ => (none, 0)
     | _ => (o.quiesce, o.quiesceWrites + writes)
-  { o with prev := cur, ever, verdicts, raised, jobCreates, maxReq, quiesce := q, quiesceWrites := qw }
+  { o with prev := cur, ever, verdicts, raised, jobCreates, jobGoneExt, maxReq, quiesce := q, quiesceWrites := qw }
 
 /-! ## C01 -/
 def oracleC01 (o : OSt) (_op : OpKind) (_log : List String) (cur : World) : String :=
@@ -191,7 +194,8 @@ def oracleC07 (o : OSt) (op : OpKind) (log : List String) (cur : World) : String
   | _, _, _ =>
     match op with
     | .quiesceEnd k =>
-      let bad := (ownTrials cur k).find? (fun t => tCompleted t && ((findJob cur t.key).isSome != t.retain) && (lookup o.jobCreates t.key).isSome)
+      let bad := (ownTrials cur k).find? (fun t => tCompleted t && ((findJob cur t.key).isSome != t.retain) && (lookup o.jobCreates t.key).isSome &&
+        !(t.retain && o.jobGoneExt.contains t.key))
       match bad with
       | some t => s!"fail run-object-cleanup-does-not-follow-retain {t.key.name} retain={t.retain}"
       | none => "pass"
